@@ -224,6 +224,10 @@ impl Check for Concat {
         for (nm, got, want) in pairs {
             o.evals += 1;
             if got.to_bits() != want.to_bits() && !(got.is_nan() && want.is_nan()) {
+                if (nm.ends_with("::min") || nm.ends_with("::max")) && got == 0.0 && want == 0.0 {
+                    // known finding K3: the sign of a zero result of f64::min/max depends on how the loop was compiled
+                    return fail("ingest:differs:minmax-signed-zero", format!("{} = {:?} but the stand-alone estimator reports {:?}: they differ only in the sign of zero", nm, got, want));
+                }
                 return fail("concatenate:differs", format!("{} = {:?} but the stand-alone estimator fed the same {} observations reports {:?} (constructor {})", nm, got, xs.len(), want, c.ctor % 4));
             }
         }
